@@ -76,7 +76,7 @@ Md5Pad(m) ==
 Md5Init == << <<26437, 8961>>, <<61389, 43913>>, <<39098, 56574>>, <<4146, 21622>> >>
 
 \* the 16 digest bytes
-Md5(m) ==
+Md5Digest(m) ==
   LET r == Md5Blocks(Md5Init, Md5Pad(m), 0)
   IN WToLE(r[1]) \o WToLE(r[2]) \o WToLE(r[3]) \o WToLE(r[4])
 =============================================================================
